@@ -50,8 +50,9 @@ def dsAdd (rank : Term → Int) (l : Leader) (a b : Term) : Option Leader :=
     if la == lb then some l
     else do
       let c ← compareRank rank la lb
-      let (la, lb) := if c > 0 then (lb, la) else (la, lb)
-      pure (l.map (fun kv => if kv.2 == lb then (kv.1, la) else kv))
+      let winner := if c > 0 then lb else la
+      let loser := if c > 0 then la else lb
+      pure (l.map (fun kv => if kv.2 == loser then (kv.1, winner) else kv))
   | _, _ => some l
 
 /-- is the conjunct a definition `l = r` the propagation looks at? -/
